@@ -10,7 +10,9 @@ use crate::val::{same_val, Val};
 use serde_json::json;
 
 /// literals for the `literal-pairs` family: spelling as written in a program
-const LITERALS: [&str; 39] = [
+const LITERALS: [&str; 50] = [
+    // numerals with leading zeros: decimal all the same
+    "00", "007", "010", "0755", "08", "09", "0100", "000012", "00.5", "010.50", "-010",
     "3.141592653589793238462643", "0.1000000000000000055511151231257827", "123456789012345678901234567890.5", "0.000000000000000000000000000001234567890123456789", "2.71828182845904523536",
     "0", "1", "-1", "7", "-7", "255", "256", "65535", "65536", "1152921504606846975", "-1152921504606846975", "0.0", "-0.0", "1.0", "-1.0", "0.5",
     "-0.5", "0.1", "-0.1", "1.5", "100.25", "0.30000000000000004", "3.141592653589793", "1000000000000000000000.0", "-1000000000000000000000.0",
